@@ -108,7 +108,10 @@ func (c *onCloseCounter) minmax() (int32, int32) {
 // silent, so the housekeeping sweep is in the middle of its walk over the connections (holding its snapshot of the
 // table) when the application closes all of them and calls Stop().  Stop() and the sweep then both find the same closed
 // connections (with k = 3 in every order of the two walks: Stop takes 60 ms per connection, the sweep resumes at 100 ms).
-func runServerStop(transport string, k int, slow, appClose, sweepBusy bool) (line string) {
+//
+// manyOpts (optional, > 0): one more peer connects and sends one well-formed request that carries that many (empty Uri-Path)
+// options right before Stop() - whatever a peer has sent, Stop() must end Serve and every connection.
+func runServerStop(transport string, k int, slow, appClose, sweepBusy bool, manyOpts ...int) (line string) {
 	defer func() {
 		if r := recover(); r != nil {
 			line = fmt.Sprintf("panic %v", r)
@@ -297,6 +300,43 @@ func runServerStop(transport string, k int, slow, appClose, sweepBusy bool) (lin
 			return "setup-failed"
 		}
 		time.Sleep(20 * time.Millisecond)
+	}
+	if len(manyOpts) > 0 && manyOpts[0] > 0 {
+		type wr interface {
+			cl
+			AcquireMessage(ctx context.Context) *pool.Message
+			ReleaseMessage(m *pool.Message)
+			WriteMessage(req *pool.Message) error
+		}
+		var c wr
+		var err error
+		switch transport {
+		case "udp":
+			c, err = udp.Dial(addr)
+		case "dtls":
+			c, err = coapdtls.Dial(addr, pskConfig())
+		default:
+			c, err = tcp.Dial(addr)
+		}
+		if err != nil {
+			return "conn-error"
+		}
+		clients = append(clients, c)
+		m := c.AcquireMessage(context.Background())
+		m.SetCode(codes.GET)
+		m.SetToken(message.Token{0x77, 0x01})
+		if transport != "tcp" {
+			m.SetType(message.NonConfirmable)
+		}
+		for j := 0; j < manyOpts[0]; j++ {
+			m.AddOptionBytes(message.URIPath, nil)
+		}
+		err = c.WriteMessage(m)
+		c.ReleaseMessage(m)
+		if err != nil {
+			return "setup-failed"
+		}
+		time.Sleep(50 * time.Millisecond)
 	}
 	if sweepBusy {
 		deadline := time.Now().Add(2 * time.Second)
@@ -694,17 +734,26 @@ func runServerCtxStop(k int) (line string) {
 		}
 	}
 	time.Sleep(100 * time.Millisecond) // the last housekeeping pass reaps the closed connections
-	done := 1
-	ccMu.Lock()
-	for _, cc := range srvConns {
-		select {
-		case <-cc.Done():
-		default:
-			done = 0
+	allDone := func() int {
+		ccMu.Lock()
+		defer ccMu.Unlock()
+		for _, cc := range srvConns {
+			select {
+			case <-cc.Done():
+			default:
+				return 0
+			}
 		}
+		return 1
 	}
-	ccMu.Unlock()
+	done := allDone()
 	lo, hi := counter.minmax()
+	// (the pass runs every 20 ms of real time: on a loaded machine give it up to a second before reporting)
+	for late := time.Now().Add(time.Second); (done == 0 || lo == 0) && time.Now().Before(late); {
+		time.Sleep(10 * time.Millisecond)
+		done = allDone()
+		lo, hi = counter.minmax()
+	}
 	s.Stop() // the listener is closed now: Serve returns
 	select {
 	case <-served:
